@@ -440,6 +440,28 @@ func c17Run(w *core.W) {
 		}
 		sp(nil)
 	}
+	// tails: a valid list followed by annotations - whole ones, or text that breaks off
+	// in the middle of one
+	if w.Shard == 0 {
+		for _, list := range []string{`[1, 2]`, "[\n\t\"a\"\n]", `[]`} {
+			for tail, ok := range map[string]bool{"": true, " //": true, " // c": true, " /* a */": true, " /* a */ // b": true, "\n/* a\n b */\n": true, " /**/": true,
+				" /": false, "/": false, " /*": false, "/**": false, " /* t": false, " /* t *": false, " /* a */ /* b": false, " /* a */ /": false, " // c\n/": false} {
+				in := []byte(list + tail)
+				w.S.Evaluations++
+				var err error
+				rec, site := guard(func() { err = enum.New("e", in).Check() })
+				want := ok && list != `[]`
+				if list == `[]` {
+					continue // an empty list is refused for its own reasons
+				}
+				if rec != nil {
+					w.Violate(bv("no-panic", "tails", in, fmt.Sprintf("Check panicked: %v", rec), map[string]string{"site": site}))
+				} else if (err == nil) != want {
+					w.Violate(bv("accept-iff-list-of-distinct-scalars", "tails", in, fmt.Sprintf("accepted=%v, a list followed by %q should be accepted=%v (%s)", err == nil, tail, want, errStr(err)), map[string]string{"dir": fmt.Sprintf("accepted=%v", err == nil), "why": "annotation-tail"}))
+				}
+			}
+		}
+	}
 	// meaning family
 	var lists [][]string
 	var gen func(p []string)
